@@ -123,6 +123,14 @@ theorem client_never_waits_forever (maxReq nfiles : Nat) (wfaults sfaults : List
   exact (SftpClient.runOps_good ops _ (SftpClient.init_good maxReq nfiles wfaults sfaults)
     (by rw [hlen0]; exact hops)).1
 
+/-- **Every answer for an outstanding request completes exactly that request, in whatever order answers arrive**:
+    the model's `asyncResponse` removes the answered number from the file's `_reqs` wherever it stands, and
+    `client_never_waits_forever` quantifies over programs in which answered requests overtake each other
+    (`Op.deliver k`).  That the code does the same — `if num in self._reqs: self._reqs.remove(num)`, membership in
+    the whole collection, not a comparison with the oldest entry — is read from the AST of
+    `SFTPFile._async_response` on every run. -/
+theorem source_write_status_matched_by_id : writeStatusMatchedById = true := by decide
+
 /-! ## the client's lock under channel back-pressure -/
 
 /-- the lock/back-pressure model instantiated with what the AST of `SFTPClient._async_request` says about where the
